@@ -6,6 +6,8 @@ C25 checker.
 event stream over a token-gated recording client (hook constructor, real 512-slot channel):
   `es <filterhex> <seq>`            → `ok`
   `ev <kind> <namehex|-> <id>`      → `buf=<len(eventCh)> fl=<1 if the goroutine holds an event in Send>`
+  `relfail`                         → the held event's Send fails (client gone): no record, the stream ends → `-`
+  `halt`                            → Stop() while the case goes on dispatching events → `ok`
   `rel <k>`                         → the records the client received now, `seq:kind:namehex:id+…`
   `stop`                            → Stop() + drain: the remaining records
 query stream over a hand-fed QueryResponse (timing free → not compared, monitor only):
@@ -24,7 +26,7 @@ stream's sequence number) and judges the implementation's records against them.
 namespace SerfModel.Check.C25
 open SerfModel SerfModel.Check SerfModel.IpcStreams
 
-def chanCap : Nat := 512
+def chanCap : Nat := ipcChanCap
 
 structure St where
   filter : String := ""
@@ -35,6 +37,8 @@ structure St where
   released : Nat := 0
   fed : List Ev := []
   got : List Ev := []
+  halted : Bool := false
+  sendFailed : Bool := false
   qseq : Nat := 0
   qacks : List String := []
   qresps : List (String × String) := []
@@ -48,11 +52,19 @@ def showEv (seq : Nat) (e : Ev) : String :=
 
 /-- the stream goroutine takes the next event as soon as it is idle -/
 def pickUp (s : St) : St :=
-  if s.held == 0 && !s.es.buf.isEmpty then { s with es := esStep s.fs chanCap s.es .consume, held := 1 } else s
+  if s.held == 0 && !s.es.buf.isEmpty && !s.es.dead then { s with es := esStep s.fs chanCap s.es .consume, held := 1 } else s
 
 def releaseN : Nat → St → St
   | 0, s => s
   | n + 1, s => if s.held == 1 then releaseN n (pickUp { s with held := 0, released := s.released + 1 }) else s
+
+/-- the send of the event the goroutine holds fails: that event is lost and `stream` returns
+(the same state as if the goroutine's receive had been a `consumeFail`) -/
+def failHeld (s : St) : St :=
+  if s.held == 1 then
+    { s with held := 0, sendFailed := true,
+             es := { s.es with sent := s.es.sent.take s.released, lost := (s.es.sent.drop s.released).take 1, dead := true } }
+  else s
 
 def recordsSince (s0 s1 : St) : String :=
   joinOr (((s1.es.sent.take s1.released).drop s0.released).map (showEv s1.seq))
@@ -110,7 +122,7 @@ def monitorStream (s : St) (impl : String) (final : Bool) : St × Option (String
     if rs.any (·.seq != s.seq) then (s', some ("stream-seq", s!"a record does not carry the stream's seq {s.seq}: {impl}"))
     else if evs.any (fun e => !specWanted s.filter e) then (s', some ("stream-filter", s!"a record does not match the filter: {impl}"))
     else if !isSubseq got (s.fed.filter (specWanted s.filter)) then (s', some ("stream-order", s!"records are not the fed events in order: {impl}"))
-    else if final && (s.fed.filter (specWanted s.filter)).length ≤ chanCap && got != s.fed.filter (specWanted s.filter) then
+    else if final && !s.sendFailed && (s.fed.filter (specWanted s.filter)).length ≤ chanCap && got != s.fed.filter (specWanted s.filter) then
       (s', some ("stream-missing", s!"a matching event was not delivered although the buffer never overflowed"))
     else (s', none)
 
@@ -122,7 +134,8 @@ def isPrefix [BEq α] : List α → List α → Bool
 def monitorQuery (seq : Nat) (impl : String) (acks : Option (List String)) (resps : Option (List (String × String)))
     (maxAcks maxResps : Nat) : Option (String × String) :=
   let items := if impl == "-" then [] else impl.splitOn "+"
-  if items.contains "AFTER-RETURN" then some ("query-after-done", s!"records were sent after the stream returned: {impl}")
+  if impl.startsWith "TIMEOUT" then some ("query-done", s!"the query stream never completed: {impl}")
+  else if items.contains "AFTER-RETURN" then some ("query-after-done", s!"records were sent after the stream returned: {impl}")
   else match items.mapM parseRec? with
     | none => some ("malformed", impl)
     | some rs =>
@@ -154,11 +167,19 @@ def step (s : St) (op : List String) (impl : String) : LineOut St :=
     match (if n == "-" then some "" else stringOfHex? n), i.toNat? with
     | some nm, some id =>
       let e : Ev := { kind := k, name := nm, id := id }
-      let s1 := pickUp { s with es := esStep s.fs chanCap s.es (.arrive e), fed := s.fed ++ [e] }
+      let s1 := pickUp { s with es := esStep s.fs chanCap s.es (.arrive e), fed := if s.halted then s.fed else s.fed ++ [e] }
       { state := s1, model := some s!"buf={s1.es.buf.length} fl={s1.held}",
         monitor := if impl.startsWith "TIMEOUT" && specWanted s.filter e then
             some ("stream-missing", s!"an event matching the filter never reached the client of an idle stream: {impl}") else none }
     | _, _ => { state := s, model := some "bad-op" }
+  | ["relfail"] =>
+    -- the client's connection breaks: the Send of the held event fails, the stream goroutine returns
+    let s1 := failHeld s
+    let (s2, m) := monitorStream s1 impl false
+    { state := s2, model := some "-", monitor := m }
+  | ["halt"] =>
+    -- Stop() while events keep being dispatched: from now on nothing is owed and nothing may enter
+    { state := { s with es := esStep s.fs chanCap s.es .stop, halted := true }, model := some "ok" }
   | ["rel", k] =>
     match k.toNat? with
     | some n =>
